@@ -105,6 +105,7 @@ type stepRun struct {
 	faultJournalLen int
 	dynLimit, dynDepth0 int
 	faulted  bool
+	haltJS   bool
 	hfVals   []interface{}
 	gid      string
 	maxSteps int
@@ -326,6 +327,13 @@ func (r *stepRun) makeIrqFn(p *pendingIrq) func() {
 			r.dynLimit = 6 + int(p.irq.Step%9)
 			r.dynDepth0 = r.vm.VerifFunctionDepth()
 			r.vm.SetStackDepthLimit(r.dynLimit)
+		case "panic_jsvalue":
+			// the interrupt function halts the script with an otto error value
+			p.payload = r.vm.MakeCustomError("Halt", "injected halt")
+			r.halted = true
+			r.haltVal = p.payload
+			r.haltJS = true
+			panic(p.payload)
 		default:
 			p.payload = makePayload(p.irq.Kind)
 			r.halted = true
@@ -922,6 +930,9 @@ func judge(c *StepCase, r0, r1 *RunResult) *Violation {
 		if r.halted && payloadEqual(r1.PanicVal, r.haltVal) {
 			ok = true
 		}
+		if r.halted && r.haltJS {
+			ok = true // the value may travel wrapped in otto's exception carrier
+		}
 		for _, hv := range r.hfVals {
 			if payloadEqual(r1.PanicVal, hv) {
 				ok = true
@@ -933,6 +944,8 @@ func judge(c *StepCase, r0, r1 *RunResult) *Violation {
 			}
 			return viol("C18", "foreign_panic", "Run panicked with %T(%v) which no fault injected", r1.PanicVal, r1.PanicVal)
 		}
+	} else if r.halted && r.haltJS && strings.Contains(r1.Err, "injected halt") {
+		// an otto error value thrown by the interrupt function leaves Run as its error
 	} else if r.halted {
 		v := viol("C18", "irq_panic_lost", "interrupt function panicked with %T at step %d but Run returned normally (value %s, err %q)", r.haltVal, r.lastHaltStep(), r1.Value, r1.Err)
 		v.Key = "irq-panic-intercepted-by-script-try"
@@ -1018,7 +1031,7 @@ func judgeHost(c *StepCase, r0, r1 *RunResult) *Violation {
 // ---------------------------------------------------------------------------
 // case generation
 
-var irqKinds = []string{"noop", "panic_error", "panic_string", "mutate", "panic_int", "panic_struct", "panic_ptr", "setlimit"}
+var irqKinds = []string{"noop", "panic_error", "panic_string", "mutate", "panic_int", "panic_struct", "panic_ptr", "setlimit", "panic_jsvalue"}
 var hostKinds = []string{"go_string", "go_error", "js_type", "js_custom", "go_int", "go_struct"}
 var anchors = []string{"abs", "after_b", "loop_head", "deep", "labelled", "frac"}
 
@@ -1397,7 +1410,7 @@ func (stepEngine) Exec(ci interface{}, st *Stats) (*Violation, interface{}, bool
 			}
 			sort.Ints(ks)
 		}
-		for _, kind := range []string{"noop", "panic_error", "panic_string"} {
+		for _, kind := range []string{"noop", "panic_error", "panic_string", "panic_jsvalue"} {
 			for _, k := range ks {
 				irqs := []Irq{{Step: k, Kind: kind}}
 				r1 := execRun(c, irqs, true, st, false)
